@@ -117,7 +117,11 @@ func isLibrary(fn string) bool {
 // timers), so nothing ever will.  A goroutine with library frames that is
 // running, in a system call, sleeping, or parked inside some other package
 // (grpc, net, database/sql) makes the verdict "not provable".
-func standstill(a, b string) (string, bool) {
+func standstill(a, b string) (string, bool) { return standstillOf(a, b, "fix.Watchdog.func1") }
+
+// standstillOf: marker names the frame that identifies the goroutine(s)
+// running the action.
+func standstillOf(a, b, marker string) (string, bool) {
 	ga, gb := parseDump(a), parseDump(b)
 	var action *gor
 	for id, g := range gb {
@@ -156,7 +160,7 @@ func standstill(a, b string) (string, bool) {
 		if !ok || strings.Join(prev.funcs, "\n") != strings.Join(g.funcs, "\n") {
 			return "", false
 		}
-		if strings.Contains(g.text, "fix.Watchdog.func1") {
+		if strings.Contains(g.text, marker) {
 			gg := g
 			action = &gg
 		}
